@@ -31,8 +31,33 @@ fn stage(i: &Input, c: &mut Case) -> Result<(), String> {
     let mut inj_k = 0u32;
     if inject {
         inj_k = 1 + t.below(1000) as u32;
-        let at = t.below(steps.len() + 1);
-        steps.insert(at, RStep::Fail(inj_k));
+        if t.chance(1, 2) {
+            // deliver exactly up to a tag boundary (taken from a plain parse of the bytes), then fail: the iterator has then
+            // consumed everything it was given when it next asks the source
+            let plain = with_spec!(m.spec, T => read_all::<T>(&m.bytes, &ReadCfg { tolerate: cfg.tolerate, max_size: cfg.max_size.clone(), ..ReadCfg::default() }));
+            let mut bounds: Vec<usize> = plain.iter().filter_map(|o| if let Obs::Item(f, off) = o { if !f.is_end() && *off > 0 { Some(*off) } else { None } } else { None }).collect();
+            bounds.dedup();
+            if !bounds.is_empty() {
+                let b = bounds[t.below(bounds.len())];
+                let mut ns = Vec::new();
+                let mut left = b;
+                while left > 0 {
+                    let n = (1 + t.below(24)).min(left);
+                    ns.push(RStep::Chunk(n));
+                    left -= n;
+                }
+                ns.push(RStep::Fail(inj_k));
+                ns.push(RStep::Chunk(len - b));
+                steps = ns;
+                c.label("failure_injected_at_tag_boundary");
+            } else {
+                let at = t.below(steps.len() + 1);
+                steps.insert(at, RStep::Fail(inj_k));
+            }
+        } else {
+            let at = t.below(steps.len() + 1);
+            steps.insert(at, RStep::Fail(inj_k));
+        }
     }
     // call script: decisions drawn lazily
     let recover_after_err = t.range(0, 10) as u32; // probability /10
@@ -307,7 +332,7 @@ pub fn run(rc: &mut RunCtx) {
     // shapes: 0 empty known-size, 1 unknown-size closed by the next sibling, 2 with a child, 3 separated by a root-level leaf
     rc.run_indexed(STAGES[1], 4, true, &|k| Input::Args(vec![k, 3000]));
     rc.run_pt(STAGES[0], rc.pick(240_000, 5_000_000), (128, 700));
-    for l in ["error_returned", "try_recover_called", "injected_error_surfaced", "fused_checked", "capacity_below_16", "input_adversarial_headers", "input_random_bytes"] {
+    for l in ["error_returned", "try_recover_called", "injected_error_surfaced", "fused_checked", "capacity_below_16", "input_adversarial_headers", "input_random_bytes", "failure_injected_at_tag_boundary"] {
         rc.require_label("totality", l, 10_000);
     }
     if !rc.quick() {
